@@ -26,19 +26,74 @@ use crate::world::{Fate, IncomingAction, Ns, Routed, Scenario, World, MS};
 
 pub struct RouteOracle {
     hd_seen: usize,
+    pk_seen: usize,
+    /// connection IDs each connection has issued (source CIDs of its long-header packets and
+    /// NEW_CONNECTION_ID frames it sealed)
+    issued: std::collections::BTreeMap<u32, BTreeSet<Vec<u8>>>,
+    /// per endpoint: connection ID -> (connection holding it, sequence number), until retired
+    active: std::collections::BTreeMap<u32, std::collections::BTreeMap<Vec<u8>, (u32, u64)>>,
     pub checked: u64,
     pub stale: u64,
 }
 
 impl RouteOracle {
     pub fn new() -> Self {
-        Self { hd_seen: 0, checked: 0, stale: 0 }
+        Self { hd_seen: 0, pk_seen: 0, issued: Default::default(), active: Default::default(), checked: 0, stale: 0 }
     }
 }
 
 impl Oracle for RouteOracle {
     fn after_step(&mut self, w: &mut World, _wl: &Workload) {
         let mut problem: Option<(String, String)> = None;
+        // connections that drained release their IDs
+        for (_, act) in self.active.iter_mut() {
+            act.retain(|_, (o, _)| !w.conns[*o as usize].drained_handled);
+        }
+        {
+            let t = w.tap.lock().unwrap();
+            for p in &t.pkts[self.pk_seen..] {
+                if p.inc == NO_INC || (p.inc as usize) >= w.conns.len() {
+                    continue;
+                }
+                let node = w.conns[p.inc as usize].node;
+                if !p.enc {
+                    // RETIRE_CONNECTION_ID accepted: the ID is free again
+                    if p.ok {
+                        for f in crate::wire::frames(&p.payload).0 {
+                            if let crate::wire::Frame::RetireConnectionId { seq } = f {
+                                self.active.entry(node).or_default().retain(|_, (o, s)| !(*o == p.inc && *s == seq));
+                            }
+                        }
+                    }
+                    continue;
+                }
+                let mut fresh: Vec<(Vec<u8>, u64)> = Vec::new();
+                if let Ok(h) = crate::wire::plain_header(&p.header) {
+                    if !h.scid.is_empty() && p.space != crate::wire::Space::OneRtt && !self.issued.get(&p.inc).is_some_and(|s| s.contains(&h.scid)) {
+                        fresh.push((h.scid, 0));
+                    }
+                }
+                for f in crate::wire::frames(&p.payload).0 {
+                    if let crate::wire::Frame::NewConnectionId { cid, seq, .. } = f {
+                        fresh.push((cid, seq));
+                    }
+                }
+                for (cid, seq) in fresh {
+                    self.issued.entry(p.inc).or_default().insert(cid.clone());
+                    let act = self.active.entry(node).or_default();
+                    match act.get(&cid) {
+                        Some((o, s)) if *o != p.inc && !w.conns[*o as usize].drained_handled => {
+                            problem = Some(("connection-id-held-by-two-connections".into(), format!("node{}: inc{} issued connection ID {} (sequence {}) while inc{} still holds it (sequence {}, not retired, not drained)", node, p.inc, crate::util::hex(&cid), seq, o, s)));
+                        }
+                        Some((o, _)) if *o == p.inc => {}
+                        _ => {
+                            act.insert(cid, (p.inc, seq));
+                        }
+                    }
+                }
+            }
+            self.pk_seen = t.pkts.len();
+        }
         for h in &w.handled[self.hd_seen..] {
             let d = &w.dgrams[h.dgram as usize];
             // datagrams (and faithful copies of datagrams) that a connection of this world produced
@@ -51,7 +106,24 @@ impl Oracle for RouteOracle {
                 let expect = w.conns[origin as usize].peer;
                 // with zero-length connection IDs the owner of the address tuple is the addressee
                 let tuple_owner = w.nodes[h.node as usize].cid_len == 0 && w.conns[to as usize].conn.remote_address() == d.src;
+                // with one- or two-byte IDs a retired ID is soon issued again to another
+                // connection of the endpoint, and a delayed datagram then belongs to the new
+                // owner: there the statement's own wording is the test — the connection that
+                // issued the destination connection ID
+                let cid_len = w.nodes[h.node as usize].cid_len;
+                let reissued = cid_len > 0 && cid_len < 4 && d.bytes.len() > cid_len && {
+                    let dcid: Vec<u8> = if d.bytes[0] & 0x80 != 0 {
+                        match crate::wire::public_header(&d.bytes, cid_len) {
+                            Ok(crate::wire::PublicHeader::Long { dcid, .. }) => dcid,
+                            _ => Vec::new(),
+                        }
+                    } else {
+                        d.bytes[1..1 + cid_len].to_vec()
+                    };
+                    self.issued.get(&to).is_some_and(|s| s.contains(&dcid))
+                };
                 let ok = tuple_owner
+                    || reissued
                     || to == expect
                     // the pairing of a server connection is learnt at accept; an Initial that is
                     // retransmitted before that still belongs to the same pair
@@ -163,7 +235,11 @@ impl Scenario for IsoScen {
     }
 }
 
-fn run(ch: Chooser, ctx: &RunCtx, mut opts: BasicOpts, n_acts: u32, allow_connect: bool) -> RunOut {
+fn run(ch: Chooser, ctx: &RunCtx, opts: BasicOpts, n_acts: u32, allow_connect: bool) -> RunOut {
+    run2(ch, ctx, opts, n_acts, allow_connect, true)
+}
+
+fn run2(ch: Chooser, ctx: &RunCtx, mut opts: BasicOpts, n_acts: u32, allow_connect: bool, strict: bool) -> RunOut {
     let mut w = World::from_ctx(ch, ctx);
     opts.allow_corrupt = false;
     opts.idle_off = true;
@@ -189,8 +265,10 @@ fn run(ch: Chooser, ctx: &RunCtx, mut opts: BasicOpts, n_acts: u32, allow_connec
     let mut sc = IsoScen { b, acts, closed_keys: BTreeSet::new() };
     sc.b.oracles.push(Box::new(RouteOracle::new()));
     w.run(&mut sc);
-    // isolation of failure
-    if w.violations.is_empty() {
+    // isolation of failure (not with one- or two-byte IDs: stateless reset tokens are derived from
+    // the ID, so a stray reset for an ID that has since been issued again ends its new holder —
+    // the price of such short IDs, not a routing fault)
+    if w.violations.is_empty() && strict {
         let mut bad: Option<(String, String)> = None;
         for c in &w.conns {
             if !sc.b.wl.sides.contains_key(&c.inc) {
@@ -222,7 +300,7 @@ fn run(ch: Chooser, ctx: &RunCtx, mut opts: BasicOpts, n_acts: u32, allow_connec
             w.violate(k, d);
         }
     }
-    if w.violations.is_empty() && sc.b.completed_at.is_none() && w.hit_limit.is_none() && sc.b.wl.incomplete_reason(&w).is_some() {
+    if w.violations.is_empty() && strict && sc.b.completed_at.is_none() && w.hit_limit.is_none() && sc.b.wl.incomplete_reason(&w).is_some() {
         let (k, d) = super::c02::classify(&w, &sc.b);
         if w.queue.is_empty() {
             w.violate(format!("wedge/{}", k), format!("nothing in flight, no timer armed, no event pending, yet: {}", d));
@@ -238,6 +316,12 @@ fn run(ch: Chooser, ctx: &RunCtx, mut opts: BasicOpts, n_acts: u32, allow_connec
 
 fn fam_many(ch: Chooser, ctx: &RunCtx) -> RunOut {
     run(ch, ctx, BasicOpts { n_clients: 4, conns_per_client: 3, op_kinds: vec![1, 0], ops_max: 2, streams_max: 3, size_max: 15_000, cid_len_choices: vec![8, 8, 4, 20, 5], ..Default::default() }, 10, true)
+}
+/// one- and two-byte connection IDs: freshly generated IDs collide with live ones all the time
+/// and the endpoint has to draw again (no Retry: a Retry's one-byte source CID may legitimately
+/// collide, as quinn documents)
+fn fam_short(ch: Chooser, ctx: &RunCtx) -> RunOut {
+    run2(ch, ctx, BasicOpts { n_clients: 4, conns_per_client: 3, op_kinds: vec![1, 0], ops_max: 2, streams_max: 3, size_max: 15_000, retry: 0, cid_len_choices: vec![1, 2, 1], ..Default::default() }, 10, true, false)
 }
 fn fam_rotation(ch: Chooser, ctx: &RunCtx) -> RunOut {
     run(ch, ctx, BasicOpts { n_clients: 3, conns_per_client: 2, op_kinds: vec![1, 0], ops_max: 2, streams_max: 3, size_max: 40_000, cid_lifetime_ms: Some(200), cid_len_choices: vec![8, 4, 20], ..Default::default() }, 8, true)
@@ -255,7 +339,8 @@ pub fn spec() -> PropSpec {
     PropSpec {
         id: "C09",
         families: vec![
-            Family { name: "many", f: fam_many, weight: 40 },
+            Family { name: "many", f: fam_many, weight: 30 },
+            Family { name: "short-cids", f: fam_short, weight: 10 },
             Family { name: "cid-rotation", f: fam_rotation, weight: 25 },
             Family { name: "zero-length-cids", f: fam_zero_len, weight: 15 },
             Family { name: "rebind", f: fam_rebind, weight: 20 },
